@@ -89,6 +89,7 @@ func (h *AnnouncePingHandler) Send(peer netip.Addr) error {
 	// Send announcement.
 	err = h.r.sendPingMsg(sendPingOpts{
 		dst:      m.RouterAddress,
+		viaPeer:  peer,
 		msgType:  frame.RouterHopPingDeprecated,
 		pingType: announcePingType,
 		pingData: data,
